@@ -309,6 +309,12 @@ struct World {
         return (int)v.size();
     }
 
+    int disable_all_on(int di) {
+        int n = 0;
+        for (auto &kv : evs) if (kv.second->desc == di) { if (kv.second->enabled) do_disable(*kv.second); ++n; }
+        return n;
+    }
+
     // ---------------------------------------------------------------- the monitor
     void on_cb(uint64_t id, int events) {
         ++callbacks;
@@ -549,7 +555,8 @@ struct World {
             act_create(self, r, r.pick(wants));
         } else if (roll < 89) {                           // on-EOF idiom: drop everything on own descriptor, close it, delete self later
             if (opt.cls == 3 && sd.open && !self.pending_delete) {
-                int n = destroy_all_on(self.desc, &self);
+                // siblings are destroyed, or only disabled (they stay behind on the closed descriptor and are never enabled again)
+                int n = r.chance(1, 2) ? destroy_all_on(self.desc, &self) : disable_all_on(self.desc);
                 if (n >= 0) {
                     log(" close-own"); sig.add(7);
                     do_disable(self);
@@ -561,8 +568,10 @@ struct World {
         } else if (roll < 93) {                           // close the other end of own channel (peer must carry no events)
             int pi = peer_of(self.desc);
             if (opt.cls >= 2 && descs[pi].open) {
-                int n = destroy_all_on(pi, nullptr);
-                if (n >= 0 && descs[pi].nev == 0) {
+                bool keep = r.chance(1, 3);
+                int n = keep ? disable_all_on(pi) : destroy_all_on(pi, nullptr);
+                if (n >= 0 && (keep || descs[pi].nev == 0)) {
+                    if (keep && n > 0) vh::counter("act_close_fd_with_disabled_events_left");
                     log(vh::fmt(" close-peer d%d", pi)); sig.add(8);
                     close_desc(pi);
                     vh::counter("act_close_peer");
